@@ -32,6 +32,21 @@ struct Blob {
 };
 static_assert(sizeof(Blob<1>) == 1 && sizeof(Blob<17>) == 17 && sizeof(Blob<64>) == 64, "Blob<N> is N bytes");
 
+// like Blob, but the move constructor is not noexcept (a hand-written `T(T &&)`): an AnyData must still MOVE it
+template <int N>
+struct BlobX {
+	unsigned char b[N];
+	explicit BlobX(int v) { for(int i = 0; i < N; ++i) b[i] = (unsigned char)(v + i); ++g_live; }
+	BlobX(const BlobX & o) { for(int i = 0; i < N; ++i) b[i] = o.b[i]; ++g_live; }
+	BlobX(BlobX && o) { for(int i = 0; i < N; ++i) { b[i] = o.b[i]; o.b[i] = 255; } ++g_live; }
+	~BlobX() { --g_live; }
+	int value() const {
+		if(b[0] == 255) return -1;
+		for(int i = 1; i < N; ++i) if(b[i] != (unsigned char)(b[0] + i)) return -2;
+		return b[0];
+	}
+};
+
 // move-only payload holding shared ownership (non-trivial members)
 template <int N>
 struct Owner {
@@ -62,15 +77,22 @@ using Any = eventpp::AnyData<VH_CAP>;
 struct TypeOps {
 	int size;
 	std::function<Any *(int)> make;
+	std::function<Any *(int)> makeConst;   // from a const lvalue (copyable types; move-only types: as make)
 	std::function<int(const Any &)> read;
 	std::function<bool(const Any &)> isType;
 };
+
+template <typename T>
+static typename std::enable_if<std::is_copy_constructible<T>::value, Any *>::type makeFromConst(int v) { const T tmp(v); return new Any(tmp); }
+template <typename T>
+static typename std::enable_if<!std::is_copy_constructible<T>::value, Any *>::type makeFromConst(int v) { return new Any(T(v)); }
 
 template <typename T>
 static TypeOps opsFor() {
 	return TypeOps{
 		(int)sizeof(T),
 		[](int v) { return new Any(T(v)); },
+		[](int v) { return makeFromConst<T>(v); },
 		[](const Any & a) { return a.template get<T>().value(); },
 		[](const Any & a) { return a.template isType<T>(); }
 	};
@@ -83,10 +105,12 @@ static std::vector<TypeOps> types() {
 		opsFor<Blob<33>>(), opsFor<Blob<63>>(), opsFor<Blob<64>>(), opsFor<Blob<65>>(), opsFor<Blob<80>>(),
 		opsFor<Owner<16>>(), opsFor<Owner<24>>(), opsFor<Owner<40>>(), opsFor<Owner<72>>(),
 		// from here on: trivially copyable types (not ledger-counted by themselves, see podHeld)
-		opsFor<Pod<8, 0>>(), opsFor<Pod<8, 1>>(), opsFor<Pod<16, 0>>(), opsFor<Pod<16, 1>>(), opsFor<Pod<24, 0>>(), opsFor<Pod<24, 1>>()
+		opsFor<Pod<8, 0>>(), opsFor<Pod<8, 1>>(), opsFor<Pod<16, 0>>(), opsFor<Pod<16, 1>>(), opsFor<Pod<24, 0>>(), opsFor<Pod<24, 1>>(),
+		// ledger-counted again: copyable types whose move constructor is not noexcept
+		opsFor<BlobX<4>>(), opsFor<BlobX<12>>(), opsFor<BlobX<40>>()
 	};
 }
-static const int FIRST_POD = 21;
+static const int FIRST_POD = 21, END_POD = 27;
 
 struct SlotRec { Any * any; int ty; const void * addr; bool movedFrom; };
 
@@ -122,10 +146,19 @@ int main(int argc, char ** argv) {
 			if(g_live != 0) { std::cout << "leak-at-reset " << g_live << "\n"; g_live = 0; }
 			std::string nm; is >> nm; std::cout << "--- " << nm << "\n"; continue;
 		}
-		if(op == "new") {
+		if(op == "new" || op == "newc") {
 			int a, ty, size, v; is >> a >> ty >> size >> v;
 			if(slots.count(a)) std::cout << "skip\n";
-			else { Any * p = T[ty].make(v); slots[a] = SlotRec{p, ty, p->getAddress(), false}; std::cout << "ok\n"; }
+			else { Any * p = op == "new" ? T[ty].make(v) : T[ty].makeConst(v); slots[a] = SlotRec{p, ty, p->getAddress(), false}; std::cout << "ok\n"; }
+		}
+		else if(op == "husk") {
+			// what a moved-from AnyData still holds: a moved-from object if the object is stored inline, nothing otherwise
+			int a; is >> a;
+			const int effCap0 = (int)(VH_CAP > sizeof(eventpp::anydata_internal_::LargeData) ? VH_CAP : sizeof(eventpp::anydata_internal_::LargeData));
+			if(!slots.count(a) || !slots[a].movedFrom) std::cout << "skip\n";
+			else if(T[slots[a].ty].size > effCap0) std::cout << "husk none\n";
+			else if(slots[a].ty >= FIRST_POD && slots[a].ty < END_POD) std::cout << "husk moved\n";   // trivially copyable: moving is copying
+			else { int v = T[slots[a].ty].read(*slots[a].any); if(v == -1) std::cout << "husk moved\n"; else std::cout << "husk intact-" << v << "\n"; }
 		}
 		else if(op == "move") {
 			int b, a; is >> b >> a;
@@ -169,8 +202,8 @@ int main(int argc, char ** argv) {
 		// (a moved-from AnyData still holds a - moved-from - object only if the object is stored inline)
 		const int effCap = (int)(VH_CAP > sizeof(eventpp::anydata_internal_::LargeData) ? VH_CAP : sizeof(eventpp::anydata_internal_::LargeData));
 		long podHeld = 0;
-		for(auto & sl : slots) if(sl.second.ty >= FIRST_POD && (!sl.second.movedFrom || T[sl.second.ty].size <= effCap)) ++podHeld;
-		for(int ty : qtypes) if(ty >= FIRST_POD) ++podHeld;
+		for(auto & sl : slots) if(sl.second.ty >= FIRST_POD && sl.second.ty < END_POD && (!sl.second.movedFrom || T[sl.second.ty].size <= effCap)) ++podHeld;
+		for(int ty : qtypes) if(ty >= FIRST_POD && ty < END_POD) ++podHeld;
 		std::cout << "live " << (g_live + podHeld) << "\n";
 	}
 	reset();
